@@ -43,7 +43,7 @@ pub fn meta() -> CheckMeta {
 
 fn run_case(rep: &mut Report, solver: Solver, prob: &IvpProblem, cfg: &Cfg, mode: DimMode) {
     let sname = solver.name();
-    let opts = Opts { budget: 4_000_000, max_items: 3_000, mode, ..Default::default() };
+    let opts = Opts { budget: 4_000_000, max_items: 3_000, mode, order: ((cfg.t1.to_bits() >> 7) % 6) as u8, ..Default::default() };
     let out = solve_real(solver, cfg, &prob.y0, prob, &opts);
     rep.eval();
     rep.count(&format!("{}/solves", sname), 1);
